@@ -69,6 +69,7 @@ type image struct {
 }
 
 type exec struct {
+	shardOf  map[string]uint64  // C18: "<n>|<series>" -> shard index seen earlier in this run
 	delTimes map[string][]int64 // C12: timestamps deleted so far, per series
 	t        *testing.T
 	prop     string
@@ -294,6 +295,21 @@ func (e *exec) onIO(op, site, path string, n int) {
 func (e *exec) setOnReload(f func(string)) { e.onReload = f }
 
 // ---- setup ----
+
+// richLabels gives the C16 / C18 profiles label sets with shared and absent labels.
+func richLabels(i int) labels.Labels {
+	l := []string{"__name__", "m", "s", fmt.Sprint(i % 4), "job", []string{"a", "b"}[i%2]}
+	if i%2 == 1 {
+		l = append(l, "odd", "y")
+	}
+	if e := []string{"prod", "dev", ""}[i%3]; e != "" {
+		l = append(l, "env", e)
+	}
+	if i >= 4 {
+		l = append(l, "zone", []string{"eu-1", "eu-2", "us"}[(i/2)%3])
+	}
+	return labels.FromStrings(l...)
+}
 
 func seriesLabels(i int) labels.Labels {
 	if i%2 == 1 {
@@ -929,7 +945,11 @@ func Execute(t *testing.T, prop string, plan *Plan) (res *runner.Result) {
 	e.curOOO = e.cfg.OOOWindow
 	e.now = e.cfg.Start
 	for i := 0; i < e.cfg.NSeries; i++ {
-		e.lsets = append(e.lsets, seriesLabels(i))
+		if e.cfg.RichLabels {
+			e.lsets = append(e.lsets, richLabels(i))
+		} else {
+			e.lsets = append(e.lsets, seriesLabels(i))
+		}
 	}
 	e.m = tsdbmodel.New(e.lsets)
 	e.m.OpenCutoff = math.MinInt64
@@ -1078,6 +1098,10 @@ func (e *exec) nonTrivial() bool {
 		return e.res.Counters["samples_deleted"] > 0 && e.compactions > 0 && e.restarts > 0
 	case "C52":
 		return e.res.Counters["counter_checks"] > 10 && e.restarts > 0
+	case "C16":
+		return e.res.Counters["label_queries_selective"] >= 3 && e.compactions > 0
+	case "C18":
+		return e.res.Counters["shard_checks_multi_series"] >= 3 && e.compactions > 0 && e.restarts > 0
 	case "C11":
 		return e.res.Counters["caller_histograms_tracked"] >= 8 && e.compactions > 0 && e.restarts > 0
 	case "C12":
@@ -1767,6 +1791,19 @@ func (e *exec) step(o Op) {
 		if len(e.res.Violations) > 0 {
 			e.failed = true
 		}
+	}
+	if !e.failed && e.db != nil && (e.isMutating(o.K) || o.K == "restart") {
+		e.extraQueryChecks(fmt.Sprintf("after op %d (%s)", e.opIdx, o.K))
+	}
+}
+
+// extraQueryChecks runs the query-shape oracles of the C16 / C18 profiles.
+func (e *exec) extraQueryChecks(where string) {
+	switch e.prop {
+	case "C16":
+		e.labelQueryCheck(where)
+	case "C18":
+		e.shardCheck(where)
 	}
 }
 
